@@ -421,6 +421,9 @@ def _all_paths_return(block: List[ast.stmt]) -> bool:
         return _all_paths_return(last.body) and _all_paths_return(last.orelse)
     if isinstance(last, ast.With):
         return _all_paths_return(last.body)
+    if isinstance(last, ast.Try) and last.orelse and not last.finalbody:
+        return _all_paths_return(last.orelse) and all(
+            _all_paths_return(h.body) for h in last.handlers)
     return False
 
 
@@ -437,6 +440,32 @@ def _structure_returns(block: List[ast.stmt]) -> Optional[List[ast.stmt]]:
             if body is None:
                 return None
             out.append(ast.copy_location(ast.With(items=st.items, body=body), st))
+            return out
+        if isinstance(st, ast.Try) and any(isinstance(x, ast.Return) for x in _walk_scope(st)):
+            # try: <no return> except E: ...return v   followed by the rest of the helper:
+            # the rest only runs when no handler returned, i.e. it is the try's `else` part
+            if st.finalbody or any(isinstance(x, ast.Return) for b_ in st.body
+                                   for x in _walk_scope(b_)):
+                return None
+            handlers = []
+            all_ret = True
+            for h in st.handlers:
+                hb = _structure_returns(h.body)
+                if hb is None:
+                    return None
+                if not _all_paths_return(h.body):
+                    all_ret = False
+                handlers.append(ast.copy_location(ast.ExceptHandler(type=h.type, name=h.name,
+                                                                    body=hb), h))
+            rest = list(st.orelse) + block[i + 1:]
+            if not all_ret and any(isinstance(x, ast.Return) for h in st.handlers
+                                   for b_ in h.body for x in _walk_scope(b_)):
+                return None  # a handler that returns on some paths only
+            tail = _structure_returns(rest)
+            if tail is None:
+                return None
+            out.append(ast.copy_location(ast.Try(body=st.body, handlers=handlers,
+                                                 orelse=tail or [ast.Pass()], finalbody=[]), st))
             return out
         if isinstance(st, (ast.For, ast.While, ast.Try, ast.With)):
             if any(isinstance(x, ast.Return) for x in _walk_scope(st)):
@@ -491,6 +520,13 @@ def _returns_to_assign(block: List[ast.stmt], make) -> List[ast.stmt]:
         out.append(ast.copy_location(ast.With(items=last.items,
                                               body=_returns_to_assign(last.body, make) or
                                               [ast.Pass()]), last))
+    elif isinstance(last, ast.Try) and any(isinstance(x, ast.Return) for x in _walk_scope(last)):
+        hs = [ast.copy_location(ast.ExceptHandler(
+            type=h.type, name=h.name, body=_returns_to_assign(h.body, make) or [ast.Pass()]), h)
+            for h in last.handlers]
+        out.append(ast.copy_location(ast.Try(
+            body=last.body, handlers=hs,
+            orelse=_returns_to_assign(last.orelse, make) or [ast.Pass()], finalbody=[]), last))
     else:
         out.append(last)
         # falling off the end returns None
@@ -740,8 +776,38 @@ def _inline_star(h: "_Helper", recv, st: ast.Expr, star: ast.Starred,
     return pre + body[:-1] + [ast.Expr(value=call)]
 
 
-def _inline_proc_calls(fn: ast.AST, helpers, cls, counter: List[int]) -> int:
+def _hoist_test_calls(fn: ast.AST, helpers, cls, counter: List[int]) -> int:
+    """`if [not] helper(...):` with a statement-bodied helper -> `_t = helper(...); if [not] _t:`
+    (only when the call is the whole test, so the evaluation order is unchanged)"""
     n = 0
+    for block in list(_blocks(fn)):
+        i = 0
+        while i < len(block):
+            st = block[i]
+            if isinstance(st, ast.If):
+                t = st.test
+                neg = isinstance(t, ast.UnaryOp) and isinstance(t.op, ast.Not)
+                c = t.operand if neg else t
+                if isinstance(c, ast.Call):
+                    h, _recv = _helper_of_call(c, helpers, cls)
+                    if h is not None and h.proc and h.expr is None:
+                        counter[0] += 1
+                        nm = f"_t{counter[0]}"
+                        asg = ast.copy_location(ast.Assign(
+                            targets=[ast.Name(id=nm, ctx=ast.Store())], value=c), st)
+                        ref = ast.copy_location(ast.Name(id=nm, ctx=ast.Load()), c)
+                        st.test = ast.copy_location(ast.UnaryOp(op=ast.Not(), operand=ref),
+                                                    t) if neg else ref
+                        block.insert(i, asg)
+                        ast.fix_missing_locations(asg)
+                        n += 1
+                        i += 1
+            i += 1
+    return n
+
+
+def _inline_proc_calls(fn: ast.AST, helpers, cls, counter: List[int]) -> int:
+    n = _hoist_test_calls(fn, helpers, cls, counter)
     for block in list(_blocks(fn)):
         i = 0
         while i < len(block):
